@@ -46,6 +46,9 @@ CHECKS = {
  "C12": dict(cat="exploration", tech="unambiguous-history monitor: interval tokens in a free non-commutative monoid (any wrong partner/order/duplicate poisons the output); exhaustive length sweep; group folds vs longdouble reference products",
    text="cumops / cumops_ on interval tokens for every L in 1..4096 (exhaustive for the index schedule, both orders), cummul/cumprod (and in-place variants, defaults) through a Tensor subclass carrying the token operation, every dim of rank 1-4 tensors incl. permuted/strided views with sentinels, purity of out-of-place and aliasing of in-place variants; group-valued folds (24 call variants, four groups, both dtypes) vs the sequential fold in reference matrices.",
    note="Trusted: the token monoid (self-tested each run) and lie_ref; exhaustive: true refers to the cumops/cumops_ length sweep.", ref="DESIGN.md 3 C12"),
+ "C13": dict(cat="exploration", tech="reference-model monitor: longdouble Kalman recursion (Joseph form) next to every EKF/UKF call, self-fed runs of 50 steps; linearised reference for nonlinear EKF; statistical monitor (>= 6 sigma band from the exact posterior and ESS) for PF; covariance validity",
+   text="EKF and UKF (k in {None, 0, +-real}) on random linear-Gaussian systems written as NLS (dims 1-6, spectra over 6 orders of magnitude, non-diagonal P, time-varying A) must return the exact Kalman predict-then-update posterior, step by step over self-fed runs with Q/R tensor objects reused across calls; nonlinear EKF equals the documented recursion on analytic Jacobians; EKF/PF always and UKF for k>=0 return symmetric PSD covariances; the PF estimate lies within a 6-sigma Monte-Carlo band (exact posterior covariance, effective sample size, self-normalised bias) of the posterior mean of its documented particle model.",
+   note="Trusted: kalman_ref (self-tested each run against an information-form recursion); tolerance from a first-order rounding-error model incl. cond(S); PF runs with ESS < 200 discarded and counted; batched filters not documented and not monitored.", ref="DESIGN.md 3 C13"),
  "C14": dict(cat="exploration", tech="KKT monitor on an independent roll-out model: feasibility, recomputed cost, autograd and costate gradients, dense reduced-QP optimum, perturbation test; history monitor over repeated solves",
    text="LQR on LTI/LTV systems (batch 1-3, horizon 1-20, dims 1-6 incl. n_state=1, stable/unstable, PD Q with kappa up to 1e6, random p, c1, x_init, nominal trajectories) must start at x_init, satisfy the reference dynamics, report the recomputed cost, have zero gradient w.r.t. every input (two independent gradient computations) and agree with a dense QP optimum where conditioning allows; independence from u_traj and from earlier solves / system time; MPC on linear systems returns the same optimum, on nonlinear systems a feasible trajectory with consistent cost.",
    note="Trusted: lqr_ref (no Riccati recursion, no pypose); box constraints and LTV with dt != 1 not exercised.", ref="DESIGN.md 3 C14"),
